@@ -79,80 +79,45 @@ fn tcp_pair() -> (OwnedFd, OwnedFd) {
     b.set_nonblocking(true).unwrap();
     (a.into(), b.into())
 }
+
 fn main() {
-    let dt = DriverType::IoUring;
-    for round in 0..3 {
+    use std::io::Write;
+    for dt in [DriverType::IoUring, DriverType::Poll] {
+      for nwrite in [1usize, 2, 3] {
         let mut p = mk(dt, 8);
-        let (a, b) = tcp_pair();
-        let op = SendZc::new(Fd { id: 2, fd: a }, Buf { id: 2, v: b"hello".to_vec() }, SendFlags::empty());
-        match p.push(op) {
-            PushEntry::Pending(mut key) => {
-                for i in 0..6 {
-                    let r = p.poll(Some(Duration::ZERO)).map_err(|e| e.kind());
-                    let m = p.pop_multishot(&key).map(|r| r.0.map_err(|e| e.raw_os_error()));
-                    println!("zc poll{} = {:?} popm={:?}", i, r, m);
-                    match p.pop(key) {
-                        PushEntry::Pending(k) => key = k,
-                        PushEntry::Ready(r) => {
-                            println!(" zc ready {:?}", r.0.map_err(|e| e.raw_os_error()));
-                            break;
-                        }
-                    }
-                    if i == 2 && round > 0 {
-                        use std::io::Read;
-                        let mut s = std::net::TcpStream::from(b.try_clone().unwrap());
-                        let mut bb = [0u8; 16];
-                        println!("  peer read {:?}", s.read(&mut bb));
-                    }
-                    if i == 5 { std::mem::forget(key); break; }
-                }
-            }
-            PushEntry::Ready(r) => println!("zc ready at once {:?}", r.0.map_err(|e| e.raw_os_error())),
+        let (a, b) = pair();
+        let a = std::sync::Arc::new(a);
+        struct SFd(std::sync::Arc<OwnedFd>);
+        impl AsFd for SFd { fn as_fd(&self) -> BorrowedFd<'_> { self.0.as_fd() } }
+        let mut keys = vec![];
+        for i in 0..3 {
+            let op = Recv::new(SFd(a.clone()), Buf { id: i, v: Vec::with_capacity(4) }, RecvFlags::empty());
+            let PushEntry::Pending(key) = p.push(op) else { panic!("ready") };
+            keys.push(Some(key));
         }
-        drop(b);
-    }
-    // flush + drop variant on tcp
-    {
-        let mut p = mk(dt, 8);
-        let (a, b) = tcp_pair();
-        let op = SendZc::new(Fd { id: 3, fd: a }, Buf { id: 3, v: b"hello".to_vec() }, SendFlags::empty());
-        let PushEntry::Pending(key) = p.push(op) else { panic!() };
-        println!("flush = {}", p.flush());
-        std::thread::sleep(Duration::from_millis(5));
-        drop(p);
-        println!("after drop: drops[3]={} (key still held)", DROPS[3].load(Ordering::SeqCst));
-        if DROPS[3].load(Ordering::SeqCst) > 0 { std::mem::forget(key); } else { drop(key); }
-        drop(b);
-    }
-    // accept multi: two pending connections in CQ at drop, key held
-    {
-        let mut p = mk(dt, 8);
-        let l = std::net::TcpListener::bind("127.0.0.1:0").unwrap();
-        let addr = l.local_addr().unwrap();
-        l.set_nonblocking(true).unwrap();
-        let op = AcceptMulti::new(Fd { id: 4, fd: l.into() });
-        let PushEntry::Pending(key) = p.push(op) else { panic!() };
-        println!("acc poll = {:?}", p.poll(Some(Duration::ZERO)).map_err(|e| e.kind()));
-        let _c1 = std::net::TcpStream::connect(addr).unwrap();
-        let _c2 = std::net::TcpStream::connect(addr).unwrap();
-        std::thread::sleep(Duration::from_millis(2));
-        drop(p);
-        println!("after drop: fdrops[4]={} (key still held)", FDROPS[4].load(Ordering::SeqCst));
-        if FDROPS[4].load(Ordering::SeqCst) > 0 { std::mem::forget(key); } else { drop(key); }
-    }
-    // accept multi: ONE pending connection in CQ at drop, user key dropped: freed before ring close (benign order)
-    {
-        let mut p = mk(dt, 8);
-        let l = std::net::TcpListener::bind("127.0.0.1:0").unwrap();
-        let addr = l.local_addr().unwrap();
-        l.set_nonblocking(true).unwrap();
-        let op = AcceptMulti::new(Fd { id: 5, fd: l.into() });
-        let PushEntry::Pending(key) = p.push(op) else { panic!() };
-        println!("acc poll = {:?}", p.poll(Some(Duration::ZERO)).map_err(|e| e.kind()));
-        let _c1 = std::net::TcpStream::connect(addr).unwrap();
-        std::thread::sleep(Duration::from_millis(2));
-        drop(key);
-        drop(p);
-        println!("after drop: fdrops[5]={}", FDROPS[5].load(Ordering::SeqCst));
+        let _ = p.poll(Some(Duration::ZERO));
+        let mut s = std::os::unix::net::UnixStream::from(b.try_clone().unwrap());
+        for j in 0..nwrite { s.write_all(&[b'a' + j as u8; 4]).unwrap(); }
+        for _ in 0..4 { let _ = p.poll(Some(Duration::ZERO)); }
+        let mut out = vec![];
+        for i in 0..3 {
+            match p.pop(keys[i].take().unwrap()) {
+                PushEntry::Pending(k) => { out.push("pending".to_string()); keys[i] = Some(k); }
+                PushEntry::Ready(r) => { let (res, op) = (r.0, r.1); use compio_buf::IntoInner; let b = op.into_inner(); out.push(format!("{:?}:{:?}", res.map_err(|e| e.raw_os_error()), String::from_utf8_lossy(&b.v))); }
+            }
+        }
+        println!("{:?} nwrite={} -> {:?}", dt, nwrite, out);
+        // cancel middle one if pending, via token
+        if let Some(k) = keys[1].as_ref() {
+            let t = p.register_cancel(k);
+            println!("  cancel mid = {}", p.cancel_token(t));
+            for _ in 0..3 { let _ = p.poll(Some(Duration::ZERO)); }
+            for i in 0..3 { if let Some(k) = keys[i].take() { match p.pop(k) {
+                PushEntry::Pending(k) => { println!("  {} pending", i); keys[i] = Some(k); }
+                PushEntry::Ready(r) => println!("  {} {:?}", i, r.0.map_err(|e| e.raw_os_error())),
+            }}}
+        }
+        for k in keys.into_iter().flatten() { p.cancel(k); }
+      }
     }
 }
